@@ -262,7 +262,7 @@ fn matrix_case(item: u64, rng: &mut Rng, acc: &mut Acc) {
                     acc.count("ok_distance_verified_exactly");
                 }
             }
-            if item < 2 && n == 2 {
+            if acc.samples.is_empty() {
                 acc.sample(desc(json!({"outcome": "Ok", "determinant": fj(d.det)})));
             }
         }
